@@ -1,4 +1,4 @@
-From Pybtex Require Import Base.Prelude Base.PyChar Base.PyStr Model.BibtexStr Model.Names Model.Scanner Model.BibParser.
+From Pybtex Require Import Base.Prelude Base.PyChar Base.PyStr Model.BibtexStr Model.Names Model.Scanner Model.BibParser Model.BibParserOpt.
 Require Extraction.
 Require Import ExtrOcamlBasic.
 
@@ -45,7 +45,13 @@ Definition e_pat (p : pat) : sexp :=
   end.
 Definition e_sc (s : sc) : sexp := L [e_str (sc_rest s); A (sc_line s); e_nat (sc_pos s)].
 
-(* 1: Parser().parse_string(text) in strict, non-strict and capture mode
+Definition d_opts (a : sexp) : opts :=
+  mkOpts (d_opt (d_list d_str) (d_nth a 0)) (d_bool (d_nth a 1))
+         (d_list (fun p => (d_str (d_nth p 0), d_str (d_nth p 1))) (d_nth a 2)) (d_list d_str (d_nth a 3)).
+Definition e_dbo (d : dbo) (s : pst) : sexp := e_db (d_db d) s.
+
+(* 13: Parser(wanted_entries=, keyless_entries=, macros=, person_fields=).parse_string(text), three modes
+   1: Parser().parse_string(text) in strict, non-strict and capture mode
    8: capture-mode readings of x+bad+y, x+y, x        9, 10: capture-mode reading (10: of a rendering, C01)   11: low-level commands of a rendering   12: one Parser instance reading several strings
    2: list(LowLevelParser(text)) with the same error handler
    3: normalize_whitespace     4: pattern.match(text)      5: month_names
@@ -68,9 +74,11 @@ Definition dispatch (fn : Z) (a : sexp) : sexp :=
            L [e_out e_db (parse_bib Capture (x ++ bad ++ y)); e_out e_db (parse_bib Capture (x ++ y));
               e_out e_db (parse_bib Capture x); e_out e_db (parse_bib NonStrict (x ++ bad ++ y));
               e_out e_db (parse_bib NonStrict x); e_out e_db (parse_bib Strict (x ++ bad ++ y))]
-  | 9%Z | 10%Z => e_out e_db (parse_bib Capture (d_str (d_nth a 0)))
+  | 9%Z | 10%Z | 14%Z => e_out e_db (parse_bib Capture (d_str (d_nth a 0)))
   | 11%Z => e_out e_low (lowlevel Capture (d_str (d_nth a 0)))
   | 12%Z => e_out e_db (parse_bib_seq Capture (d_list d_str (d_nth a 0)) db_init month_macros [])
+  | 13%Z => let o := d_opts (d_nth a 0) in let t := d_str (d_nth a 1) in
+            L [e_out e_dbo (parse_bib_o o Strict t); e_out e_dbo (parse_bib_o o NonStrict t); e_out e_dbo (parse_bib_o o Capture t)]
   | _ => L []
   end.
 
